@@ -74,6 +74,11 @@ struct RCase {
 	/// (log ids are counted per account; the base world gives both accounts the same number of entries)
 	#[serde(default)]
 	other_acct: bool,
+	/// the target is finalized (not posted) with a reply whose cutoff field the counterparty changed:
+	/// 1 = removed (0), 2 = far later, 3 = one block earlier than agreed. The field is covered by no signature;
+	/// the sender's own cutoff, fixed at initiation, is what a later refresh must go by
+	#[serde(default)]
+	reply_ttl: u8,
 }
 
 fn base_world(dir: &str) {
@@ -276,10 +281,21 @@ fn run_rcase_inner(w: &World, c: &RCase) -> Result<String, (String, String)> {
 	} else {
 		let s1 = a.init_send(args).unwrap();
 		a.lock(&s1).unwrap();
-		let s2 = b.receive(&s1, None).unwrap();
+		let mut s2 = b.receive(&s1, None).unwrap();
 		if c.posted > 0 {
 			let s3 = a.finalize(&s2).unwrap();
 			a.post(s3.tx_or_err().unwrap()).unwrap();
+		}
+		if c.reply_ttl > 0 {
+			s2.ttl_cutoff_height = match c.reply_ttl {
+				1 => 0,
+				2 => 1_000_000,
+				_ => s2.ttl_cutoff_height.saturating_sub(1),
+			};
+			if a.finalize(&s2).is_err() {
+				// the altered reply is refused (e.g. its cutoff has been reached): nothing finalized
+				return Ok("altered-reply-refused".into());
+			}
 		}
 		s1
 	};
@@ -434,10 +450,10 @@ pub fn run(_args: &[String]) -> i32 {
 			for sender_side in [true, false].iter() {
 				for others in (if thorough { vec![0u32, 1, 2] } else { vec![0u32, 2] }).iter() {
 					for older_far in [false, true].iter() {
-						rcases.push(RCase { ttl_blocks: *ttl, mined, sender_side: *sender_side, others: *others, older_far: *older_far, late_lock_gap: None, posted: 0, other_acct: false });
+						rcases.push(RCase { ttl_blocks: *ttl, mined, sender_side: *sender_side, others: *others, older_far: *older_far, late_lock_gap: None, posted: 0, other_acct: false, reply_ttl: 0 });
 						if *sender_side && !*older_far && *others == 0 && ttl.map(|t| t >= 2).unwrap_or(false) {
 							for gap in [1u64, 2].iter() {
-								rcases.push(RCase { ttl_blocks: *ttl, mined, sender_side: true, others: 0, older_far: false, late_lock_gap: Some(*gap), posted: 0, other_acct: false });
+								rcases.push(RCase { ttl_blocks: *ttl, mined, sender_side: true, others: 0, older_far: false, late_lock_gap: Some(*gap), posted: 0, other_acct: false, reply_ttl: 0 });
 							}
 						}
 					}
@@ -449,14 +465,21 @@ pub fn run(_args: &[String]) -> i32 {
 		for mined in 0u64..=4 {
 			for sender_side in [true, false].iter() {
 				for posted in [1u8, 2].iter() {
-					rcases.push(RCase { ttl_blocks: *ttl, mined, sender_side: *sender_side, others: 0, older_far: false, late_lock_gap: None, posted: *posted, other_acct: false });
+					rcases.push(RCase { ttl_blocks: *ttl, mined, sender_side: *sender_side, others: 0, older_far: false, late_lock_gap: None, posted: *posted, other_acct: false, reply_ttl: 0 });
 				}
 			}
 		}
 	}
 	for ttl in [None, Some(1u64), Some(2), Some(50)].iter() {
 		for mined in 0u64..=3 {
-			rcases.push(RCase { ttl_blocks: *ttl, mined, sender_side: true, others: 0, older_far: false, late_lock_gap: None, posted: 0, other_acct: true });
+			rcases.push(RCase { ttl_blocks: *ttl, mined, sender_side: true, others: 0, older_far: false, late_lock_gap: None, posted: 0, other_acct: true, reply_ttl: 0 });
+		}
+	}
+	for ttl in [Some(2u64), Some(3)].iter() {
+		for mined in 0u64..=4 {
+			for reply_ttl in [1u8, 2, 3].iter() {
+				rcases.push(RCase { ttl_blocks: *ttl, mined, sender_side: true, others: 0, older_far: false, late_lock_gap: None, posted: 0, other_acct: false, reply_ttl: *reply_ttl });
+			}
 		}
 	}
 	let twice = |first: Result<String, (String, String)>, again: &dyn Fn() -> Result<String, (String, String)>| match first {
